@@ -273,6 +273,8 @@ type execRun struct {
 	inflight, maxInfl int
 	ctxBad            int
 	elemOrd           [64]int // started element calls per collection
+	postWaitSet       bool
+	postWaitErr       error
 	nextEm            int
 	nextProbe         int
 	sharedErr         *userErr
@@ -432,6 +434,16 @@ func (x *execRun) isStarted() bool { return x.started }
 
 //go:norace
 func (x *execRun) setLastErr(e error) { x.lastErr = e }
+
+//go:norace
+func (x *execRun) notePostWait(e error) {
+	if !x.postWaitSet {
+		x.postWaitSet, x.postWaitErr = true, e
+	}
+}
+
+//go:norace
+func (x *execRun) postWait() (bool, error) { return x.postWaitSet, x.postWaitErr }
 
 //go:norace
 func (x *execRun) setCallerSlot(i int) { x.callerSlot = i }
@@ -975,9 +987,13 @@ func (t *recTask) TaskError(_ context.Context, err error) {
 func (t *recTask) TaskErrorRecovered(_ context.Context, err error) {
 	t.e.rec(EmTaskErrorRecovered, t.name, err, nil)
 }
-func (t *recTask) TaskSkipped(_ context.Context, err error) {
+func (t *recTask) TaskSkipped(ctx context.Context, err error) {
 	if t.e.x.d.SlowEmit && t.e.k == 0 {
-		t.e.x.r.sim.Yield(engine.HsMisc) // a slow emitter: whoever reports the skip is held for a step
+		// a slow emitter: whoever reports the skip is held for a step. Skips are reported after
+		// Wait has returned, so from here on the context may end without the directive having to
+		// notice: what "the context was (not) done when the directive returned" means is fixed now.
+		t.e.x.notePostWait(ctx.Err())
+		t.e.x.r.sim.Yield(engine.HsMisc)
 	}
 	t.e.rec(EmTaskSkipped, t.name, err, nil)
 }
@@ -1048,6 +1064,9 @@ func (r *runner) runExec(x *execRun, parent context.Context) {
 		res, err = x.fn(uctx, h, d.Params)
 	}()
 	ctxErr := ctx.Err()
+	if set, e := x.postWait(); set {
+		ctxErr = e
+	}
 	sim.SwapTag(oldTag)
 	x.setLastErr(err)
 	sim.Yield(engine.HsRet)
